@@ -191,7 +191,7 @@ def small_block(full):
                         if idx < len(comp):
                             es.append([comp[idx], list(defs), []])
                     plats.append([name, es])
-                out.append({"files": files, "platforms": plats, "exclude": [], "levels": 1, "cli": False})
+                out.append({"files": files, "platforms": plats, "exclude": [], "levels": 1, "cli": False, "small": True})
     return out
 
 
@@ -420,14 +420,18 @@ class C06(Check):
     def generate(self):
         out = [dict(c) for c in MALFORMED]
         quick = self.tier == "quick"
-        for _ in range(22 if quick else 400):
+        for _ in range(16 if quick else 150):
             out.append(gen_case(self.rng, cli=True))
-        for _ in range(2 if quick else 30):
+        for _ in range(2 if quick else 20):
             out.append(gen_case(self.rng, cli=True, big=True))
-        for _ in range(150 if quick else 3000):
+        for _ in range(150 if quick else 1500):
             out.append(gen_case(self.rng, cli=False))
         out += small_block(full=not quick)
         return out
+
+    def _parity(self, case):
+        import zlib
+        return zlib.crc32(json.dumps(case, sort_keys=True).encode()) % 2
 
     # ---- materialise
     def _build(self, case):
@@ -483,7 +487,7 @@ class C06(Check):
             def run(cmd, cwd):
                 return subprocess.run(cmd, cwd=cwd, env=env, capture_output=True, text=True, timeout=300)
             jobs["summary"] = pool.submit(run, py + ["-m", "codebasin", "-R", "summary", "analysis.toml"], root)
-            vs = [0, 3] if self._n % 2 else [2, 1]
+            vs = [0, 3] if self._parity(case) else [2, 1]     # a function of the case, so a replay runs the same variants
             for v in vs:
                 prune, lev = VARIANTS[v]
                 cmd = py + ["-m", "codebasin.tree"] + (["--prune"] if prune else []) + (["-L", str(k)] if lev else []) + ["analysis.toml"]
@@ -512,7 +516,9 @@ class C06(Check):
                     ans["cov_cli"] = [[e["file"].split("/"), e["id"], e["used_lines"], e["unused_lines"]] for e in cov]
                 else:
                     ans["cov_cli"] = ["Exit", r.returncode, r.stderr[-200:]]
-        elif ans["status"] == "Ok":
+        elif ans["status"] == "Ok" and (not case.get("small") or self._parity(case) or self.tier != "quick"):
+            # (quick tier: every random case and half of the exhaustive small block; CBI re-validates its
+            #  JSON schemas on every load, which makes one front-end call cost 50-70 ms)
             self._fronts_inproc(case, base, root, ans)
         self._ia[self.key(case)] = ans
         return ans
@@ -528,7 +534,10 @@ class C06(Check):
         rc, out = _Capture(root, "codebasin", base / "out_summary.txt").run(cbmain._main, ["-R", "summary", "analysis.toml"])
         ans["summary_cli"] = parse_summary(out) if rc == 0 else ["Exit", rc, ""]
         ans["tree_cli"] = {}
-        for v, (prune, lev) in enumerate(VARIANTS):
+        # random cases: all four (prune, -L) variants; the exhaustive small block: two, alternating
+        vs = [0, 1, 2, 3] if not case.get("small") else ([0, 3] if len(case["files"]) % 2 else [2, 1])
+        for v in vs:
+            prune, lev = VARIANTS[v]
             argv = (["--prune"] if prune else []) + (["-L", str(k)] if lev else []) + ["analysis.toml"]
             rc, out = _Capture(root, "codebasin.tree", base / "out_tree.txt").run(lambda: cbtree.cli(argv), argv)
             ans["tree_cli"][str(v)] = parse_tree(out, root) if rc == 0 else ["Exit", rc, ""]
